@@ -545,7 +545,13 @@ func c15InSet(xs []int, l int) bool {
 
 // c15Observe builds the logger the op describes, runs the front end under the wrappers, and collects the entries.
 func c15Observe(op c15Op) (o c15Obs) {
-	core, logs := observer.New(zap.LevelEnablerFunc(func(l zapcore.Level) bool { return int(l) >= op.Min }))
+	enab := zap.LevelEnablerFunc(func(l zapcore.Level) bool { return int(l) >= op.Min })
+	core, logs := observer.New(enab)
+	if len(op.Chain)%2 == 0 || op.Depth > 40 {
+		// the observer is teed with an encoding core (output discarded): the entry the observer keeps — its stack-trace text
+		// in particular — must stay what it was while the encoder recycles pooled buffers right after it
+		core = zapcore.NewTee(core, zapcore.NewCore(zapcore.NewJSONEncoder(zap.NewProductionEncoderConfig()), zapcore.AddSync(io.Discard), enab))
+	}
 	c := &c15Ctx{lvl: zapcore.Level(op.Lvl), slvl: slog.Level(op.SLvl)}
 	feName := op.FE
 	var cleanup func()
